@@ -8,6 +8,9 @@ qualified names, uids, public attributes and every ordered relation.
 
 from __future__ import annotations
 
+import functools
+import types
+
 from edgegraph.structure import Link, Universe, Vertex
 from edgegraph.structure.base import BaseObject
 from edgegraph.structure.universe import UniverseLaws
@@ -74,6 +77,21 @@ def canonical(root):
             return [type(v).__name__, sorted(repr(val(x, depth + 1)) for x in v)]
         if isinstance(v, type):
             return ["class", v.__module__ + "." + v.__qualname__]
+        if isinstance(v, types.MethodType):
+            k = containers.get(id(v))
+            if k is not None:
+                return ["shared_container", k]
+            containers[id(v)] = len(containers)
+            keep.append(v)
+            return ["method", v.__func__.__qualname__, val(v.__self__, depth + 1)]
+        if isinstance(v, functools.partial):
+            k = containers.get(id(v))
+            if k is not None:
+                return ["shared_container", k]
+            containers[id(v)] = len(containers)
+            keep.append(v)
+            return ["partial", getattr(v.func, "__qualname__", "?"), [val(x, depth + 1) for x in v.args],
+                    [[kk, val(x, depth + 1)] for kk, x in sorted(v.keywords.items())]]
         return ["other", type(v).__qualname__]
 
     if isinstance(root, dict):
